@@ -30,22 +30,7 @@ theorem C09_http_connects_to_the_address (idna : Bytes → Option Bytes) (ua : B
 theorem C09_http_new_total (idna : Bytes → Option Bytes) (ua : Bytes) (address : SocketAddr)
     (ts : Option Settings.Timeout) (hs : HttpSettings) :
     Http.new idna ua address ts hs ≠ .crash ∧ ∀ k, Http.new idna ua address ts hs = .err k → k = .invalidInput := by
-  have hp : ∀ proto after, parseUrl idna proto after ≠ .crash ∧ ∀ k, parseUrl idna proto after = .err k → k = .invalidInput := by
-    intro proto after
-    unfold parseUrl
-    simp only []
-    repeat' split
-    all_goals first
-      | exact ⟨(fun h => nomatch h), (fun k h => by cases h; rfl)⟩
-      | exact ⟨(fun h => nomatch h), (fun k h => nomatch h)⟩
-  unfold Http.new
-  simp only []
-  split
-  · exact ⟨(fun h => nomatch h), (fun k h => nomatch h)⟩
-  · rename_i k hk
-    exact ⟨(fun h => nomatch h), (fun k' h => by cases h; exact (hp _ _).2 k hk)⟩
-  · rename_i hk
-    exact absurd hk (hp _ _).1
+  exact new_total idna ua address ts hs
 
 /-- NO HOST NAME GIVEN, IPv4: for every address `a.b.c.d`, port, protocol, headers and timeout settings the client is
 built, the host of its URL is that address, the URL's port is the given port (left out when it is the scheme's
